@@ -35,7 +35,8 @@ RULE = ("cases = scheduler (Timeout/NewThread/ThreadPool/EventLoop) x 1..3 actio
         "preemptions); plus ImmediateScheduler schedule/relative/absolute with negative, zero and positive delays; "
         "event-loop kinds also with the scheduler clock stepped back while the loop sleeps; periodic schedules on NewThread/"
         "ThreadPool with ticks within / beyond their period and a dispose mid-tick; "
-        "non-trivial = a dispose races with a pending action (disposed while the scheduler thread exists and the action "
+        "ThreadPoolScheduler with a saturated pool (bounded stub executor, blocker action) and zero-delay actions disposed while "
+        "queued; non-trivial = a dispose races with a pending action (disposed while the scheduler thread exists and the action "
         "has not started) or a preemption switched threads; distinct by canonical JSON.")
 ASSUMPTIONS = [
     "threading.Timer, threading.Condition/Lock, ThreadPoolExecutor.submit and thread start are modelled (trusted): "
@@ -156,6 +157,23 @@ def cases(rng, tier):
         S, nt = max(2, base[k][0]), base[k][1]
         npre = rng.choice([0, 1, 2, 2, 3])
         steps = sorted(rng.sample(range(S), min(npre, S)))
+        sc["first"] = 0
+        sc["pre"] = [[s, rng.randrange(nt)] for s in steps]
+        yield sc
+    # saturated thread pool: all workers busy, zero-delay actions queued in the executor, disposed before they start
+    for _ in range(fw.tier_scale(tier, 40, 400)):
+        items = [{"how": rng.choice(["now", "rel"]), "delay": 0, "at": rng.choice([0, 0, 1]), "disp": rng.choice([None, 0, 1, 1, 3])}
+                 for _ in range(rng.choice([1, 2, 3]))]
+        for it in items:
+            if it["disp"] is not None:
+                it["disp"] = max(it["disp"], it["at"])
+        sc = {"type": "pool", "sched": "threadpool", "pool": {"workers": rng.choice([1, 1, 2]), "block": 2}, "items": items}
+        k = fw.key(sc)
+        if k not in base:
+            r0 = T.run_case(dict(sc, first=0, pre=[]))
+            base[k] = (r0["steps"], r0["nthreads"])
+        S, nt = max(2, base[k][0]), base[k][1]
+        steps = sorted(rng.sample(range(S), min(rng.choice([0, 1, 2]), S)))
         sc["first"] = 0
         sc["pre"] = [[s, rng.randrange(nt)] for s in steps]
         yield sc
@@ -313,6 +331,9 @@ def verdict(case, out):
                 return ("bad", f"action {i} started at clock {s['clock']}, before its due time {due}")
             if disp is not None and disp < due:
                 return ("bad", f"action {i} started (clock {s['clock']}) although disposed at {disp}, before its due time {due}")
+            if case.get("type") == "pool" and s.get("after_dispose_returned"):
+                return ("bad", f"action {i} (queued in the saturated pool) was started at clock {s['clock']} after its dispose() "
+                               f"had returned at {disp}: nothing read its disposable before invoking it")
         if not st and disp is None:
             return ("bad", f"action {i} was never disposed and never ran")
     return ("ok", None)
@@ -342,6 +363,8 @@ def bucket(case, out):
         yield f"imm:{case['how']}:{out['imm']}"
         return
     yield f"sched:{case['sched']}"
+    if case["type"] == "pool":
+        yield "saturated-pool"
     if case["type"] == "periodic":
         pc = case["periodic"]
         yield "periodic:" + ("period0" if pc["period"] == 0 else "overrun" if any(c >= pc["period"] for c in pc["costs"]) else "in-time")
@@ -390,10 +413,13 @@ def extra(rng, tier):
         if kind != "timeout":
             scs.append({"type": "single", "sched": kind, "skew": {"at": 1, "by": 2},
                         "items": [{"how": "rel", "delay": 3, "at": 0, "disp": None}]})
+        if kind == "threadpool":
+            scs.append({"type": "pool", "sched": kind, "pool": {"workers": 1, "block": 2},
+                        "items": [{"how": "now", "delay": 0, "at": 0, "disp": 1}, {"how": "rel", "delay": 0, "at": 0, "disp": None}]})
         if kind in ("newthread", "threadpool"):
             scs.append({"type": "periodic", "sched": kind, "items": [], "periodic": {"period": 1, "costs": [2, 2, 2], "disp": 3}})
             scs.append({"type": "periodic", "sched": kind, "items": [], "periodic": {"period": 0, "costs": [1, 1, 1], "disp": 1}})
-    single = [sc for sc in scs if sc["type"] in ("single", "periodic")]
+    single = [sc for sc in scs if sc["type"] in ("single", "periodic", "pool")]
     multi = [sc for sc in scs if sc["type"] == "multi"]
     b1, i1 = X.plan(single, T.run_case, lambda sc: 2, ["all"] if quick else ["all", "all"], batch_runs=400, firsts=[0],
                     stride=3 if quick else 2)
